@@ -24,42 +24,23 @@ theorem noV2_flatMap {α : Type} (f : α → List (RK × String)) (l : List α) 
 
 /-! ### schemas -/
 
-theorem docRefs_refFree {V : Type} (s : Sch V) (h : refFree s = true) : docRefs s = [] := by
-  refine (Sch.induct (P := fun s => refFree s = true → docRefs s = [])
-    (Q := fun ks => refFreeKids ks = true → docRefsKids ks = []) ?_ ?_ ?_ ?_).1 s h
-  · intro k n h; simp [refFree] at h
-  · intro hd kids ih h
-    simp only [refFree, Bool.and_eq_true] at h
-    simp [docRefs, ih h.2]
-  · intro _; simp [docRefsKids]
-  · intro sl c rest ihc ihr h
-    simp only [refFreeKids, Bool.and_eq_true] at h
-    simp [docRefsKids, ihc h.1, ihr h.2]
-
-theorem docRefs_addlToV3 {V : Type} (s : Sch V) (h : addlPure s = true) (hw : v2Refs s = true) :
+theorem docRefs_addlToV3 {V : Type} (s : Sch V) (hw : v2Refs s = true) :
     noV2 (docRefs (addlToV3 s)) := by
-  refine (Sch.induct (P := fun s => addlPure s = true → v2Refs s = true → noV2 (docRefs (addlToV3 s)))
-    (Q := fun ks => addlPureKids ks = true → v2RefsKids ks = true → noV2 (docRefsKids (addlKids ks)))
-    ?_ ?_ ?_ ?_).1 s h hw
-  · intro k n _ hw kn hk
+  refine (Sch.induct (P := fun s => v2Refs s = true → noV2 (docRefs (addlToV3 s)))
+    (Q := fun ks => v2RefsKids ks = true → noV2 (docRefsKids (addlKids ks)))
+    ?_ ?_ ?_ ?_).1 s hw
+  · intro k n hw kn hk
     simp only [addlToV3, docRefs, List.mem_singleton] at hk
     subst hk
     cases k <;> simp_all [toV3RK, v2Refs, RK.isV2]
-  · intro hd kids ih h hw
-    simp only [addlPure, Bool.and_eq_true] at h
+  · intro hd kids ih hw
     simp only [v2Refs, Bool.and_eq_true] at hw
-    simpa [addlToV3, docRefs] using ih h.2 hw.2
-  · intro _ _; simpa [addlKids, docRefsKids] using noV2_nil
-  · intro sl c rest ihc ihr h hw
-    simp only [addlPureKids, Bool.and_eq_true] at h
+    simpa [addlToV3, docRefs] using ih hw.2
+  · intro _; simpa [addlKids, docRefsKids] using noV2_nil
+  · intro sl c rest ihc ihr hw
     simp only [v2RefsKids, Bool.and_eq_true] at hw
-    by_cases hs : sl = Slot.addl
-    · simp only [hs, if_true] at h
-      simp only [addlKids, hs, if_true, docRefsKids]
-      exact noV2_append (ihc h.1 hw.1) (ihr h.2 hw.2)
-    · simp only [hs, if_false] at h
-      simp only [addlKids, hs, if_false, docRefsKids, docRefs_refFree c h.1, List.nil_append]
-      exact ihr h.2 hw.2
+    simp only [addlKids, docRefsKids]
+    exact noV2_append (ihc hw.1) (ihr hw.2)
 
 /-- **ToV3SchemaRef leaves no reference in OpenAPI 2 form** (inside the fragment of `toV3S_preserves_partial`) -/
 theorem docRefs_toV3S {V : Type} (s : Sch V) (h : addlImpure s = false) (hw : v2Refs s = true) :
@@ -82,7 +63,7 @@ theorem docRefs_toV3S {V : Type} (s : Sch V) (h : addlImpure s = false) (hw : v2
     by_cases hs : sl = Slot.addl
     · simp only [hs, if_true, Bool.not_eq_false'] at h
       simp only [toV3Kids, hs, if_true, docRefsKids]
-      exact noV2_append (docRefs_addlToV3 c h.1 hw.1) (ihr h.2 hw.2)
+      exact noV2_append (docRefs_addlToV3 c hw.1) (ihr h.2 hw.2)
     · simp only [hs, if_false] at h
       simp only [toV3Kids, hs, if_false, docRefsKids]
       exact noV2_append (ihc h.1 hw.1) (ihr h.2 hw.2)
